@@ -139,7 +139,7 @@ def c_x_le(m, pt, d):
 
 
 def c_x_vec_ge(m, pt, d):
-    return ("ge", pt.s["x"], -0.2)
+    return ("ge", m.flat(pt.s["x"]), -0.2)    # vector-valued (a square-matrix inequality would be a PSD constraint in Opti)
 
 
 def c_xu_between(m, pt, d):
